@@ -374,10 +374,24 @@ impl SubCheck for Iter {
                 let lz = conv::unix_day_of(l);
                 ensure!(hi - lz < 2 * step, "forward iteration stops {} days before the range limit", hi - lz);
             }
+            // ... and it is exactly the item the last successful step yields
+            let want = if avail_fwd > 0 { Some(c.start + (avail_fwd - 1) * step) } else { None };
+            ensure_eq!(last.map(conv::unix_day_of), want, "last() of a fresh forward iterator from day {}", c.start);
+            // the other consuming adaptors of the provided set agree with walking
+            let (mx, mn) = if c.weeks { (Iterator::max(d.iter_weeks()), Iterator::min(d.iter_weeks())) } else { (Iterator::max(d.iter_days()), Iterator::min(d.iter_days())) };
+            ensure_eq!(mx.map(conv::unix_day_of), want, "max() of a forward iterator from day {}", c.start);
+            ensure_eq!(mn.map(conv::unix_day_of), want.map(|_| c.start), "min() of a forward iterator from day {}", c.start);
+            // last() after some steps
+            let k = (c.take as i64).min(avail_fwd);
+            let after = if c.weeks { let mut it = d.iter_weeks(); for _ in 0..k { it.next(); } it.last() } else { let mut it = d.iter_days(); for _ in 0..k { it.next(); } it.last() };
+            ensure_eq!(after.map(conv::unix_day_of), if k < avail_fwd { want } else { None }, "last() after {k} steps from day {}", c.start);
         }
         if c.back && avail_bwd <= 6000 {
             let cnt = if c.weeks { d.iter_weeks().rev().count() } else { d.iter_days().rev().count() };
             ensure_eq!(cnt as i64, avail_bwd, "counted reverse length from day {}", c.start);
+            let last = if c.weeks { d.iter_weeks().rev().last() } else { d.iter_days().rev().last() };
+            let want = if avail_bwd > 0 { Some(c.start - (avail_bwd - 1) * step) } else { None };
+            ensure_eq!(last.map(conv::unix_day_of), want, "last() of a reversed iterator from day {}", c.start);
         }
         Ok(())
     }
